@@ -71,6 +71,11 @@ SecRule REQUEST_HEADERS:X-Deny "@streq 4" "id:44,phase:4,deny,status:404,log"
 SecRule REQUEST_HEADERS:X-Deny "@streq 5" "id:45,phase:5,pass,log,auditlog,msg:'late'"
 SecRule ARGS:a "@rx (a)(b)(c)?" "id:100,phase:2,capture,pass,log,tag:tagx,severity:2,setvar:tx.cap=%{tx.1}%{tx.2},setvar:tx.n=+1"
 SecRule ARGS:a "@streq x" "id:101,phase:2,pass,nolog,setvar:tx.hit=+1,setvar:tx.name=%{MATCHED_VAR_NAME}"
+SecRule ARGS_COMBINED_SIZE "@gt 6" "id:107,phase:2,pass,nolog,setvar:tx.big=%{ARGS_COMBINED_SIZE}"
+SecRule ARGS_NAMES|ARGS_GET_NAMES|ARGS_POST_NAMES "@streq q" "id:108,phase:2,pass,nolog,setvar:tx.qname=+1"
+SecRule FILES_COMBINED_SIZE "@gt 0" "id:109,phase:2,pass,nolog,setvar:tx.fsize=%{FILES_COMBINED_SIZE}"
+SecRule &ARGS "@gt 2" "id:110,phase:2,pass,nolog,setvar:tx.many=1"
+SecRule HIGHEST_SEVERITY "@lt 5" "id:111,phase:5,pass,nolog,setvar:tx.sev=%{HIGHEST_SEVERITY}"
 SecRule FILES_NAMES "@rx ." "id:106,phase:2,pass,nolog,setvar:tx.upload=%{MATCHED_VAR}"
 SecRule REQUEST_BODY "@contains zz" "id:102,phase:2,pass,nolog,setvar:tx.body=seen"
 SecRule RESPONSE_BODY "@contains yy" "id:103,phase:4,pass,nolog,setvar:tx.rbody=seen"
